@@ -561,3 +561,11 @@ seed('c04-getdifference-reads-last', 'C04', [(PD, "                    diff = so
 seed('c04-isapproximate-reads-optimized', 'C04', [(PD, "                    result = solutions_[0].approximate_;", "                    result = solutions_[0].optimized_;")], 'R04n')
 seed('c04-clear-keeps-solutions', 'C04', [(PD, "void ompl::base::ProblemDefinition::clearSolutionPaths() const\n{\n    solutions_->clear();", "void ompl::base::ProblemDefinition::clearSolutionPaths() const\n{\n    solutions_->getSolutionCount();")], 'R04n')
 seed('c04-n-isapproximate-front', 'C04', [(PD, "                    result = solutions_[0].approximate_;", "                    result = solutions_.front().approximate_;")], None)
+# R08f / R08g: RNG primitives
+RNH = 'src/ompl/util/RandomNumbers.h'
+seed('c08-quaternion-radius-plus', 'C08', [(RNGC, "    double r1 = sqrt(1.0 - x0), r2 = sqrt(x0);", "    double r1 = sqrt(1.0 + x0), r2 = sqrt(x0);")], 'R08f')
+seed('c08-quaternion-mixed-angle', 'C08', [(RNGC, "    value[1] = c1 * r1;", "    value[1] = c2 * r1;")], 'R08f')
+seed('c08-n-quaternion-order', 'C08', [(RNGC, "    value[0] = s1 * r1;\n    value[1] = c1 * r1;", "    value[1] = c1 * r1;\n    value[0] = r1 * s1;")], None)
+seed('c08-uniformreal-scaled-by-upper', 'C08', [(RNH, "            return (upper_bound - lower_bound) * uniDist_(generator_) + lower_bound;", "            return upper_bound * uniDist_(generator_) + lower_bound;")], 'R08g')
+seed('c08-uniformint-no-plus-one', 'C08', [(RNH, "            auto r = (int)floor(uniformReal((double)lower_bound, (double)(upper_bound) + 1.0));", "            auto r = (int)floor(uniformReal((double)lower_bound, (double)(upper_bound)));")], 'R08g')
+seed('c08-n-uniformreal-commuted', 'C08', [(RNH, "            return (upper_bound - lower_bound) * uniDist_(generator_) + lower_bound;", "            return lower_bound + uniDist_(generator_) * (upper_bound - lower_bound);")], None)
